@@ -9,7 +9,7 @@ sys.path.insert(0, str(V / "lib"))
 
 LEVEL = {
  "C01": ("model_checking", "TLC enumerates hand-encoded packages from the format model (Gen_Hdr: layout grid, raw entries with hostile fields, intro/lead/padding variants) for the real parser; every observation (assets, built/signed/cleared packages, seeded structure-aware mutants, generated cases) is validated by Trace_Pkg, which recomputes from the input bytes where the written bytes may differ (reserved intro bytes, signature padding) and demands re-parse/re-write fixpoint.", "3.C01"),
- "C02": ("model_checking", "verification is a state machine (Begin / Consult / Return) whose Return(ok) guard is the statement of C02; TLC explores it against an arbitrary implementation (MC) and replays the consultations logged by a recording implementation of the public Verifying trait for every generated signature-header shape x verdict pattern, plus real-key packages tampered bit-wise and by digest-consistent forgeries.", "3.C02"),
+ "C02": ("model_checking", "verification is a state machine (Begin / Consult / Return) whose Return(ok) guard is the statement of C02; TLC explores it against an arbitrary implementation (MC) and replays the consultations logged by a recording implementation of the public Verifying trait for every generated signature-header shape x verdict pattern, plus real-key packages tampered bit-wise and by digest-consistent forgeries, and random life-cycle walks (sign / clear / re-parse / tamper) replayed through the composed Rpm state machine.", "3.C02"),
  "C03": ("model_checking", "the digest decision (Allowed) is stated over the abstract state of the four recorded digests; MC shows a step-machine verifier refines it on the complete table; TLC generates the table, the harness materialises every row on a hand-encoded package and re-derives the state of bit-flipped real packages with its own decoder and hashing; Trace_C03 judges every outcome.", "3.C03"),
  "C10": ("model_checking", "SignHistory state machine model-checked for all histories up to length 5; TLC generates every history with expected observations; the harness walks them as a prefix tree with the four real keys and Trace_C10 replays every observed step through the state machine.", "3.C10"),
  "C04": ("model_checking", "the header reader is an explicit state machine (Parser) whose failure transitions are model-checked for reachability and in-bounds reads; TLC generates boundary-value products per transition (Gen_Hostile) which, with every truncation / single-byte mutation of real packages, structure-aware mutants and hostile cpio payloads, are run through every read-side operation in a child process under RLIMIT_AS, alarm() and a counting allocator; the trace specification has no action for panic / abort / timeout and bounds the allocation peak.", "3.C04"),
@@ -23,7 +23,7 @@ LEVEL = {
  "C13": ("model_checking", "RpmVerCmp is rpm's algorithm in small-step and big-step form, model-checked against a second definition (token-key order) with antisymmetry/transitivity; the real Evr/Nevra ordering is recorded on the complete bounded domain plus seeded long strings and validated event by event by TLC.", "3.C13"),
  "C14": ("model_checking", "the sink protocol (Offer / Accept / Interrupted / Zero / Fail / Return) with its safety invariant is model-checked for the write_all design and refuted for the single-write design; the real Package::write / PackageMetadata::write run against scripted sinks with a failure at every offset and every chunking family, selected runs validated call by call by Trace_C14; parsing from chunked sources and truncation at every metadata offset.", "3.C14"),
  "C15": ("model_checking", "MC proves right-splitting unambiguous on real component values in the spec; the real Display/parse/normalised forms are recorded on the same complete bounded tuple domain, the asset NEVRAs, all compression types and seeded arbitrary strings, and validated by Trace_C15.", "3.C15"),
- "C16": ("model_checking", "layout algebra model-checked on a grid covering all residues mod 8; offsets reported by parsed and in-memory (built, signed, cleared, Header::clear'ed, re-written) packages are validated by Trace_Pkg against the layout derived from the written bytes' own intro fields.", "3.C16"),
+ "C16": ("model_checking", "layout algebra model-checked on a grid covering all residues mod 8 and discharged for all naturals by Apalache (LayoutInd); offsets reported by parsed and in-memory (built, signed, cleared, Header::clear'ed, re-written) packages are validated by Trace_Pkg against the layout derived from the written bytes' own intro fields.", "3.C16"),
  "C17": ("model_checking", "MustErr (destinations without a final file name) is stated in TLA+ and model-checked for closure; every destination over {/ . a b} up to length 6, capability texts, every codec with levels across and beyond its range (child process per case) and seeded metadata strings are run through the real builder and validated by Trace_C17 (no panic action exists in the spec).", "3.C17"),
  "C18": ("model_checking", "mode-word algebra model-checked on all 65 536 words; the real conversions are recorded for all words, all in-range negatives, all constructor arguments and all 2^32 integers (run-length encoded) and validated by Trace_C18.", "3.C18"),
  "C19": ("model_checking", "character-level acceptor transcribed from the statement; the complete domain of <= 4 (5) tokens over the quantifier's 13-token alphabet plus seeded long strings goes through from_str / new / FileOptions::caps and TLC compares each verdict.", "3.C19"),
